@@ -1,7 +1,7 @@
 (** Auxiliary facts for the soundness of one request of the full model: frames under
     registration and observation ([MFrOk]), the registration check of [query_for]. *)
 From QV Require Import Common.Prelude Engine.Model Engine.Core Engine.CoreSpec Engine.CoreInvBase
-  Engine.CoreInvSem Engine.Fw Engine.FwBase Engine.FwMono Engine.FwInv Engine.FwInvExec Engine.FwRunBase
+  Engine.CoreInvSem Engine.Fw Engine.FwBase Engine.FwMono Engine.FwInv Engine.FwInvExec Engine.FwRunBase Engine.FwRun
   Engine.MdlSpec Engine.MdlSem Engine.MdlBase Engine.MdlInv Engine.MdlInvState Engine.MdlInvExec.
 Open Scope Z_scope.
 
@@ -14,6 +14,35 @@ Proof.
   - cbn [app push_unordered]. destruct d; reflexivity.
   - specialize (IH g n). cbn [app] in *. cbn [push_unordered]. destruct d; rewrite <- IH; destruct (o' ++ [DUnordered g]); reflexivity.
 Qed.
+
+(** a computing stack of a real run is a chain of callers: every member reads the requested
+    query, directly or indirectly *)
+Inductive sreach (p : program) : node -> node -> Prop :=
+| sr_one : forall m e n, alookup p m = Some e -> In n (expr_reads e) -> sreach p m n
+| sr_step : forall m e d n, alookup p m = Some e -> In d (expr_reads e) -> sreach p d n -> sreach p m n.
+Definition StkR (p : program) (stk : list node) (n : node) : Prop := forall m, In m stk -> sreach p m n.
+Lemma sreach_snoc : forall p m n e d, sreach p m n -> alookup p n = Some e -> In d (expr_reads e) -> sreach p m d.
+Proof.
+  intros p m n e d H He Hd. induction H as [m e0 n He0 Hn|m e0 d0 n He0 Hd0 _ IH].
+  - eapply sr_step; [exact He0|exact Hn|]. eapply sr_one; eauto.
+  - eapply sr_step; [exact He0|exact Hd0|]. apply IH; assumption.
+Qed.
+Lemma StkR_nil : forall p n, StkR p [] n.
+Proof. intros p n m []. Qed.
+Lemma StkR_push : forall p stk n e d, StkR p stk n -> alookup p n = Some e -> In d (expr_reads e) -> StkR p (n :: stk) d.
+Proof.
+  intros p stk n e d H He Hd m [<-|Hm]; [eapply sr_one; eauto|]. eapply sreach_snoc; eauto.
+Qed.
+Lemma sreach_rank : forall p rk, (forall n e d, alookup p n = Some e -> In d (expr_reads e) -> (rk d < rk n)%nat) ->
+  forall m n, sreach p m n -> (rk n < rk m)%nat.
+Proof.
+  intros p rk Hrk m n H. induction H as [m e n He Hn|m e d n He Hd _ IH].
+  - eapply Hrk; eauto.
+  - pose proof (Hrk _ _ _ He Hd). lia.
+Qed.
+Lemma StkR_ok : forall p rk, (forall n e d, alookup p n = Some e -> In d (expr_reads e) -> (rk d < rk n)%nat) ->
+  forall stk n, StkR p stk n -> FwRun.StkOk rk stk n.
+Proof. intros p rk Hrk stk n H m Hm. eapply sreach_rank; eauto. Qed.
 
 Section Frames.
 Variable rk : node -> nat.
